@@ -125,6 +125,9 @@ func (t *QuicTransport) exchangePayload(ctx context.Context, payload []byte) (*d
 			return nil, err
 		}
 
+		if verifhook.On {
+			verifhook.Gate("qt.try", t, ctx, c)
+		}
 		b, err := t.exchangeConn(ctx, payload, c)
 		if err != nil {
 			if !newConn && retry < 5 && !ctxIsDone(ctx) {
@@ -193,6 +196,9 @@ func (t *QuicTransport) exchangeStream(ctx context.Context, payload []byte, stre
 }
 
 func (t *QuicTransport) getConn(ctx context.Context) (_ quic.Connection, newConn bool, _ error) {
+	if verifhook.On {
+		verifhook.Gate("qt.getconn", t, ctx)
+	}
 	t.m.Lock()
 	if t.closed {
 		if verifhook.On {
@@ -253,6 +259,7 @@ func (t *QuicTransport) runDialingCall(call *dialingQuicCall) {
 		// Don't leave the exchanges that are waiting for this dial hanging.
 		call.err = ErrClosedTransport
 		if verifhook.On {
+			verifhook.Gate("qt.signal", t, call)
 			verifhook.Ev("qt.signal", t, call)
 		}
 		close(call.done)
@@ -263,6 +270,7 @@ func (t *QuicTransport) runDialingCall(call *dialingQuicCall) {
 
 	call.c, call.err = c, err
 	if verifhook.On {
+		verifhook.Gate("qt.signal", t, call)
 		verifhook.Ev("qt.signal", t, call)
 	}
 	close(call.done)
@@ -289,11 +297,13 @@ func (call *dialingQuicCall) wait(ctx context.Context) (quic.Connection, error) 
 	case <-ctx.Done():
 		if verifhook.On {
 			verifhook.Ev("qt.wait", call, ctx, false)
+			verifhook.Gate("qt.waited", call, ctx)
 		}
 		return nil, context.Cause(ctx)
 	case <-call.done:
 		if verifhook.On {
 			verifhook.Ev("qt.wait", call, ctx, true)
+			verifhook.Gate("qt.waited", call, ctx)
 		}
 		return call.c, call.err
 	}
